@@ -53,22 +53,23 @@ class Adapter:
             return p.resume()
         return p.send_signal(s)
 
-    def setcall(self, p, kind):
+    def setcall(self, p, kind, kw=False):
+        """The setting form of one call, its value passed by position or by keyword."""
         ps = self.ps
         if kind == "nice":
-            p.nice(5)
+            p.nice(value=5) if kw else p.nice(5)
             return ("nice", 5)
         if kind == "ionice":
-            p.ionice(ps.IOPRIO_CLASS_BE, 3)
+            p.ionice(ioclass=ps.IOPRIO_CLASS_BE, value=3) if kw else p.ionice(ps.IOPRIO_CLASS_BE, 3)
             return ("ionice", (2, 3))
         if kind == "rlimit":
-            p.rlimit(ps.RLIMIT_NOFILE, (10, 20))
+            (p.rlimit(ps.RLIMIT_NOFILE, limits=(10, 20)) if kw else p.rlimit(ps.RLIMIT_NOFILE, (10, 20)))
             return ("rlimit", (ps.RLIMIT_NOFILE, (10, 20)))
         if kind == "affinity":
-            p.cpu_affinity([0])
+            p.cpu_affinity(cpus=[0]) if kw else p.cpu_affinity([0])
             return ("affinity", (0,))
         if kind == "affinity_all":
-            p.cpu_affinity([])          # "all eligible CPUs": the world has two
+            p.cpu_affinity(cpus=[]) if kw else p.cpu_affinity([])          # "all eligible CPUs": the world has two
             return ("affinity", (0, 1))
         raise ValueError(kind)
 
@@ -133,7 +134,12 @@ class Adapter:
         elif op == "set":
             p = self.objs[e["o"]]
             box = {}
-            got, v = self.outcome(lambda: box.setdefault("v", self.setcall(p, e["kind"])))
+            self.nset = getattr(self, "nset", 0) + 1
+            kw = bool(self.nset % 2)
+            got, v = self.outcome(lambda: box.setdefault("v", self.setcall(p, e["kind"], kw)))
+            if e["res"] == "NSP" and got == "NSP":
+                # a refused setting stays refused however the value is spelled
+                got, v = self.outcome(lambda: self.setcall(p, e["kind"], not kw))
             new = w.set_log[ns:]
             if e["res"] == "ok":
                 what, val = box.get("v", (None, None))
@@ -213,6 +219,52 @@ def run_events(job):
         if m is not None:
             return {"step": i, "mismatch": m, "event": e}
     return {"steps": len(events)}
+
+
+def run_group_probe(job):
+    """Forked child: calls that take a caller-supplied PID, given every PID-like value the OS would
+    read as "a process group"; the kernel must see no kill() for PID <= 0 and the answers stay true."""
+    w, ps = template()
+    for pid in (1, 7, 300):
+        w.spawn(pid, start=3 * TICK, ppid=0)
+    if job == "pid0-listed":
+        w.spawn(0, start=0, ppid=0)
+    bad = []
+    listed = set(ps.pids())
+
+    def probe(name, fn, want=None):
+        n = len(w.kill_log)
+        try:
+            got = fn()
+        except (ps.Error, ValueError, TypeError, OverflowError) as ex:
+            got = type(ex).__name__
+        grp = [x for x in w.kill_log[n:] if x[0] <= 0]
+        if grp:
+            bad.append("%s made the kernel see kill%r" % (name, [tuple(x[:2]) for x in grp]))
+        elif want is not None and got != want:
+            bad.append("%s -> %r, expected %r" % (name, got, want))
+    for x in (0, False, -1, -7, -2 ** 31, -2 ** 40, 2 ** 31, 2 ** 64, True, 7, 8):
+        want = None if x is True else (x in listed and x >= 0 if not isinstance(x, bool) else x in listed)
+        probe("pid_exists(%r)" % (x,), lambda: ps.pid_exists(x), want)
+    for x in (0, -1, -7):
+        for m in ("kill", "terminate", "suspend", "resume", "is_running", "wait"):
+            def call(x=x, m=m):
+                p = ps.Process(x)
+                return getattr(p, m)(0) if m == "wait" else getattr(p, m)()
+            probe("Process(%d).%s()" % (x, m), call)
+        probe("Process(%d).send_signal(0)" % x, lambda: ps.Process(x).send_signal(0))
+        probe("Process(%d).children()" % x, lambda: ps.Process(x).children(recursive=True) and None)
+    probe("wait_procs", lambda: ps.wait_procs([ps.Process(1)], timeout=0) and None)
+    return bad
+
+
+def check_group_probe(ctx):
+    for job, (st, res) in zip(("plain", "pid0-listed"), forkpool.map_fork(run_group_probe, ["plain", "pid0-listed"], nproc=16)):
+        if st != "ok":
+            raise core.Machinery("group probe worker failed: %s" % (res,))
+        for m in res:
+            ctx.disagree("group:" + m.split("(")[0] + ":" + m.split(" ")[1][:12], m + "  [world %s]" % job, {"world": job, "what": m})
+        ctx.case(("group-probe", job))
 
 
 def sig_of(e, mismatch):
@@ -420,6 +472,8 @@ def check(ctx):
     cs = consts({1, 2, 3}, {1, 2, 3}, 6, 4, sigs=(9, 15, 19, 18, 1), setters=allsetters,
                 kinds=("proc", "popen", "oneshot"))
     replay_sim(ctx, "simulate-3pid-3obj", cs, 4000 if thorough else 600, 40)
+    if prop == "C01":
+        check_group_probe(ctx)
     if prop == "C02":
         # is_running() / object identity under process_iter() traffic: the
         # ProcIter model (C04) predicts every is_running() answer on yielded objects
